@@ -57,7 +57,7 @@ def gen_doc(rnd, sch, p_skip=30):
         elif t[0] == "arrobj":
             doc[k] = [{"n": rnd.choice(["p", "q", "r"]), "v": rnd.randint(0, 3)} for _ in range(rnd.randint(0, 4))]
         else:
-            doc[k] = rnd.choice(["1", "2", "3", "ab", 7, True, None])
+            doc[k] = rnd.choice(["1", "2", "3", "ab", 7, True, None, 0, False, "", {}])
     return doc
 
 
@@ -239,8 +239,8 @@ def check(case):
     if stf == "raise":
         raise Violation("filter-raises", f"apply_acl_filters raised {res} for filters {case['filters']}", {"doc": d, "filters": case["filters"]})
     for p, v in JM.leaves(res):
-        if v == {} and JM.getp(d, p) is not JM.ABSENT:
-            continue
+        if v == {} and isinstance(JM.getp(d, p), dict):
+            continue   # an object with fewer members is a part of the document's object (an empty result is a part of anything)
         if JM.getp(d, p) != v:
             raise Violation("filter-not-a-part", f"filter result has {p!r} = {v!r}, the document has {JM.getp(d, p)!r}", {"doc": d, "filters": case["filters"]})
     if res and res != d:
